@@ -91,6 +91,7 @@ type Sim struct {
 
 	Trace    *Trace
 	Replay   bool
+	StopClass string
 	Monitors []Monitor
 	Hooks    *TxHooks
 	Ledger   *Ledger
@@ -307,9 +308,18 @@ func (s *Sim) Step() bool {
 	return s.HarnessErr == "" && !s.stopOnViolation()
 }
 
+// stopOnViolation: generation never stops on a violation (other properties'
+// monitors keep running; repeated instances are de-duplicated by class and
+// culprit). Replays stop as soon as the target class was reproduced.
 func (s *Sim) stopOnViolation() bool {
+	if len(s.Violations) > 200 {
+		return true
+	}
+	if s.StopClass == "" {
+		return false
+	}
 	for _, v := range s.Violations {
-		if v.Known == "" {
+		if v.Class() == s.StopClass {
 			return true
 		}
 	}
@@ -551,6 +561,9 @@ func (s *Sim) applyReplica(spec *BlockSpec, blk *Block, eb *ExecBlock) {
 		res = s.N1.Apply(s.W, blk)
 	}
 	s.compareReplica("n1", eb, res, strings.Join(kinds, ","))
+	if s.N1 == nil {
+		return
+	}
 	for _, f := range spec.Faults {
 		if f.Kind == "restart_after_commit" {
 			if err := s.N1.Restart(); err != nil {
